@@ -1227,18 +1227,25 @@ def a8(prog: Program, chk: Check) -> None:
     chk.add("A8", bi, f"self._correlations = {norm(v) if v is not None else '?'}", ok,
             "" if ok else "the bath keeps the caller's correlations object: later changes of its "
                           "parameters change the bath")
-    v = stores.get("tmp_coupling_operator")
+    def conversion_of(u, param):
+        """The value of the (first) local that is made from parameter `param`."""
+        for st in walk_local(u.node):
+            if isinstance(st, ast.Assign) and len(st.targets) == 1 \
+                    and isinstance(st.targets[0], ast.Name) and isinstance(st.value, ast.Call) \
+                    and any(isinstance(a, ast.Name) and a.id == param for a in st.value.args):
+                return st.value
+        return None
+    v = conversion_of(bi, "coupling_operator")
     ok = v is not None and isinstance(v, ast.Call) and \
         (_resolve(bi.module, v) or "").replace("np.", "numpy.") == "numpy.array"
-    chk.add("A8", bi, f"tmp_coupling_operator = {norm(v) if v is not None else '?'}", ok,
+    chk.add("A8", bi, f"coupling operator converted by {norm(v) if v is not None else '?'}", ok,
             "" if ok else "the coupling operator is not copied before it is frozen (setflags) "
                           "and stored")
     ch = prog.unit("system:_check_hamiltonian")
-    v = next((st.value for st in walk_local(ch.node) if isinstance(st, ast.Assign)
-              and dotted(st.targets[0]) == "tmp_hamiltonian"), None)
+    v = conversion_of(ch, "hamiltonian")
     ok = v is not None and isinstance(v, ast.Call) and \
         (_resolve(ch.module, v) or "").replace("np.", "numpy.") == "numpy.array"
-    chk.add("A8", ch, f"tmp_hamiltonian = {norm(v) if v is not None else '?'}", ok,
+    chk.add("A8", ch, f"Hamiltonian converted by {norm(v) if v is not None else '?'}", ok,
             "" if ok else "the Hamiltonian is frozen / stored without a copy: setflags would make "
                           "the CALLER's array read-only")
 
